@@ -58,7 +58,7 @@ func (t *ktracer) middleware(mw *mwSpec) frugal.ServiceMiddleware {
 			t.add(tok, event{mw.ID, "enter", method, withCtx(renderList(args), ctxDesc(args.Context()))})
 			res := next(svc, m, passOn(mw, method, args))
 			t.add(tok, event{mw.ID, "exit", method, renderList(res)})
-			return frugal.Results(rwRes(mw, method, []interface{}(res)))
+			return handBack(mw, method, res)
 		}
 	}
 }
